@@ -74,8 +74,13 @@ type mach struct {
 	rows   []row    // engine contents after the last statement
 	floor  *big.Int // greatest id stored by INSERT/REPLACE in this lifetime (see package comment)
 	lastID *big.Int // expected LAST_INSERT_ID(); nil = unspecified (after a failed generating insert)
-	tag    int64
-	sql    []string
+	// upper bounds the last value the counter may have consumed: every explicit id ever
+	// attempted (stored or not), one value per generating row ever attempted (failed and
+	// ignored rows may burn values), ids set by UPDATE and ALTER targets. A generating row
+	// may legitimately find the type exhausted once upper reaches the type's maximum.
+	upper *big.Int
+	tag   int64
+	sql   []string
 
 	alterBelowActive bool // an ALTER .. AUTO_INCREMENT = n with n <= max(id) ran in this lifetime (region of C20-alter-below-max)
 	dead             bool // diverged on a listed known finding: the rest of the history is not checked
@@ -188,20 +193,20 @@ func (m *mach) genExplicit(rt *rapid.T) *big.Int {
 		mx = m.floor
 	}
 	var e *big.Int
-	switch k := rapid.IntRange(0, 15).Draw(rt, "explKind"); {
-	case k <= 3: // above everything
+	switch k := rapid.IntRange(0, 31).Draw(rt, "explKind"); {
+	case k <= 7: // above everything
 		e = new(big.Int).Add(mx, big.NewInt(int64(rapid.IntRange(1, 4).Draw(rt, "above"))))
-	case k <= 5: // equal to the greatest id so far
+	case k <= 11: // equal to the greatest id so far
 		e = new(big.Int).Set(mx)
-	case k <= 9: // an existing id
+	case k <= 19: // an existing id
 		if len(m.rows) > 0 {
 			e = new(big.Int).Set(rapid.SampledFrom(m.rows).Draw(rt, "existing").id)
 		} else {
 			e = big.NewInt(1)
 		}
-	case k <= 12: // small
+	case k <= 25: // small
 		e = big.NewInt(int64(rapid.IntRange(1, 6).Draw(rt, "small")))
-	case k <= 14: // negative (signed types): stored as is, no influence on the counter
+	case k <= 30: // negative (signed types): stored as is, no influence on the counter
 		if m.typ.neg {
 			e = big.NewInt(int64(-rapid.IntRange(1, 5).Draw(rt, "negative")))
 		} else {
@@ -296,6 +301,22 @@ func (m *mach) insert(rt *rapid.T) {
 		q = fmt.Sprintf("%s INTO t %s VALUES %s", mode, cols, strings.Join(tuples, ", "))
 	}
 
+	// advance the upper bound of the counter over the statement's rows
+	mayExhaust := false
+	if tm := m.tableMax(); tm.Cmp(m.upper) > 0 {
+		m.upper = new(big.Int).Set(tm)
+	}
+	for _, r := range rows {
+		switch {
+		case r.gen && m.upper.Cmp(m.typ.max) >= 0:
+			mayExhaust = true
+		case r.gen:
+			m.upper = new(big.Int).Add(m.upper, big.NewInt(1))
+		case r.expl.Cmp(m.upper) > 0:
+			m.upper = new(big.Int).Set(r.expl)
+		}
+	}
+
 	res := m.exec(rt, q)
 	after := m.read(rt)
 	byTag := map[int64]row{}
@@ -327,7 +348,7 @@ func (m *mach) insert(rt *rapid.T) {
 				us[*r.u] = true
 			}
 		}
-		exhausted := m.floor.Cmp(m.typ.max) >= 0 || m.tableMax().Cmp(m.typ.max) >= 0
+		exhausted := mayExhaust
 		updAbove := m.tableMax().Cmp(m.floor) > 0
 		genBefore := false
 		for _, r := range rows {
@@ -342,9 +363,6 @@ func (m *mach) insert(rt *rapid.T) {
 					reason = "explicit id may equal an id generated earlier in the statement"
 				}
 				ids[r.expl.String()] = true
-				if r.expl.Cmp(m.typ.max) >= 0 {
-					exhausted = true // later generating rows of the statement have no value left
-				}
 			}
 			if r.gen && (exhausted || updAbove) {
 				reason = "type exhausted or an id created by UPDATE lies above the counter"
